@@ -28,4 +28,4 @@ def run(res, only=None):
 
 
 def replay(res, path, only=None):
-    return core.generic_replay(res, path, "rot", env_keys=())
+    return core.replay_dispatch(res, path, "rot", env_keys=())
